@@ -32,6 +32,10 @@ run_directed = directed.run
 
 def cases(tier, rng):
     thorough = tier == "thorough"
+    for c in directed.used_before_override_cases():
+        yield "directed-used-before-override", c
+    for c in directed.sync_layer_over_coroutine_cases():
+        yield "directed-sync-layer-over-coroutine", c
     for c in directed.async_def_spelling_cases():
         yield "directed-async-def-spelling", c
     for c in genck.exhaustive_pre(KINDS, [True], 2, 2, with_post=(False, True), with_snap=(False, True)):
